@@ -243,6 +243,8 @@ pub fn check_program(sh: &mut Shard, p: &[Stmt]) {
 
 fn run(sh: &mut Shard) {
     let tier = sh.cfg.tier;
+    // constant-pool ladders: indices across 255 / 65 535, same literals at top level and in a function
+    crate::ladders::run_family(sh, "constants", Some("consts"), false);
     for sl in slices::slices() {
         if !matches!(sl.name, "arith" | "arith-global" | "arith-typed" | "ctrl" | "heap") {
             continue;
